@@ -40,7 +40,7 @@ def convert_vcf_records_to_model(recs: List[vcf.model._Record]) -> Dict[str, Lis
                     sequence=alt.sequence,
                     variant_type=alt.type,
                 )
-                if hasattr(sample.data, "PS"):
+                if getattr(sample.data, "PS", None) is not None:
                     variant_interval["phase_block"] = sample.data.PS
                 these_variants.append(variant_interval)
 
